@@ -175,6 +175,6 @@ func init() {
 		Run:            c06Run,
 		Replay:         c06Replay,
 		QuickBudget:    200 * time.Second,
-		ThoroughBudget: 25 * time.Minute,
+		ThoroughBudget: 12 * time.Minute,
 	})
 }
